@@ -20,7 +20,7 @@ import (
 // ---- C14: schema-change events reach every registered client exactly once, and only those ----
 
 type c14Action struct {
-	Op     string   `json:"op"` // register | disconnect | connect | emit | failover | stuck | burst_stalled
+	Op     string   `json:"op"` // register | disconnect | connect | emit | failover | stuck | burst_stalled | burst_resumed
 	Client int      `json:"client"`
 	Events []string `json:"events,omitempty"` // register: event types
 	Kind   string   `json:"kind,omitempty"`   // emit: schema | topology | status
@@ -297,6 +297,29 @@ func c14Check(c c14Case) *evid.Fail {
 					s2.seen = s2.cl.NumFrames()
 				}
 			}
+		case "burst_resumed":
+			// a registered client stops reading for a moment while the backend emits a long burst of big events, then reads
+			// on: it stays connected and registered, so it is owed the whole burst like everybody else
+			if !st.connected || !st.registered || !controlUp() {
+				continue
+			}
+			st.cl.PauseReads()
+			var evs []message.Message
+			var kinds []primitive.EventType
+			for k := 0; k < a.N; k++ {
+				evN++
+				evs = append(evs, &message.SchemaChangeEvent{ChangeType: primitive.SchemaChangeTypeUpdated, Target: primitive.SchemaChangeTargetTable, Keyspace: fmt.Sprintf("ks_%d", evN), Object: strings.Repeat("o", 4000)})
+				kinds = append(kinds, primitive.EventTypeSchemaChange)
+			}
+			stalled := st.cl
+			go func() {
+				time.Sleep(150 * time.Millisecond)
+				stalled.ResumeReads()
+			}()
+			if f := emitAndCheck(evs, kinds, where, map[int]bool{}); f != nil {
+				f.Sig = "burst-resumed:" + f.Sig
+				return f
+			}
 		case "burst_stalled":
 			// a registered client stops reading while the backend emits a long burst of big events; it is closed a
 			// moment later. Every other registered client is owed the whole burst, in order (the proxy may make them
@@ -424,6 +447,9 @@ func c14Gen(rt *rapid.T) c14Case {
 			a.Op, a.N = "stuck", rapid.IntRange(2, 5).Draw(rt, "stuckevents")
 			if rapid.IntRange(0, 7).Draw(rt, "burst") == 0 {
 				a.Op, a.N = "burst_stalled", rapid.IntRange(2200, 3200).Draw(rt, "burstevents")
+				if rapid.Bool().Draw(rt, "resumes") {
+					a.Op = "burst_resumed"
+				}
 			}
 		}
 		c.Actions = append(c.Actions, a)
@@ -457,6 +483,10 @@ func TestC14(t *testing.T) {
 					if ev == "SCHEMA_CHANGE" && conn[ci] {
 						reg[ci] = true
 					}
+				}
+			case "burst_resumed":
+				if conn[ci] && reg[ci] {
+					disturbed = true
 				}
 			case "burst_stalled":
 				if conn[ci] && reg[ci] {
